@@ -75,7 +75,8 @@ def run(pid, tier, seed, replay=None):
             script.append('\n'.join(L))
             meta.append((g, strict, grp, cfg, mode))
     res = yvlib.run_driver(exe, '\n'.join(script), leaks=True)
-    stats = {'cases': len(script), 'parses': 0, 'alloc_blocks': 0, 'frees_in_parse': 0, 'trees_freed': 0, 'modes': {}}
+    stats = {'cases': len(script), 'parses': 0, 'alloc_blocks': 0, 'frees_in_parse': 0, 'trees_freed': 0, 'modes': {}, 'free_tree_model_compared': 0, 'free_tree_model_none': 0}
+    tree_cases = []
     for (g, strict, grp, cfg, mode), r in zip(meta, res):
         stats['modes'][str(mode)] = stats['modes'].get(str(mode), 0) + 1
         txt = yvlib.grammar_text(g.as_dict())
@@ -135,6 +136,7 @@ def run(pid, tier, seed, replay=None):
         if bad:
             chk.violation(sig % 'memory', bad, rep)
             continue
+        tree_cases.append((r, parses, mode, rep, sig, script[meta.index((g, strict, grp, cfg, mode))]))
         # termcb counts: reconstruct which parse each FREET freed from the script order
         if mode in (0, 1):
             seq = [l for l in script[meta.index((g, strict, grp, cfg, mode))].split('\n') if l.startswith('FREET ')]
@@ -147,6 +149,48 @@ def run(pid, tier, seed, replay=None):
                 if o['termcb'] != nterm:
                     chk.violation(sig % 'termcb', 'terminal callback called %d times for a tree with %d TERM nodes' % (o['termcb'], nterm), rep)
                     break
+    # the model of yaep_free_tree (TreeMem.v, theorem C13_free_tree) on the DAG the implementation returned:
+    # number of nodes and of names passed to parse_free, number of terminal callbacks
+    qs, qmeta = [], []
+    for (r, parses, mode, rep, sig, sc) in tree_cases:
+        if mode not in (0, 1):
+            continue
+        seq = [l for l in sc.split('\n') if l.startswith('FREET ')]
+        for l, o in zip(seq, [x for x in r['ops'] if x['op'] == 'freet']):
+            p = parses[int(l.split()[1])]
+            if p.get('root') is None or not p.get('nodes'):
+                continue
+            q = ['FREETREE', 2 * len(p['nodes']) + 4, p['root'], len(p['nodes'])]
+            ok = True
+            for n in p['nodes']:
+                k = n['k']
+                if k == 'nil':
+                    q.append(0)
+                elif k == 'err':
+                    q.append(1)
+                elif k == 'term':
+                    q += [2, n['code'], 0]
+                elif k == 'anode':
+                    q += [3, max(n.get('name_block', 0), 0), 0, len(n['kids'])] + n['kids']
+                elif k == 'alt':
+                    q += [4, n['node'], 0 if n['next'] is None else n['next'] + 1]
+                else:
+                    ok = False
+            if ok:
+                qs.append(' '.join(map(str, q))); qmeta.append((o, mode, rep, sig))
+    for a, (o, mode, rep, sig) in zip(yvlib.run_oracle(qs), qmeta):
+        if a == 'none' or a.startswith('error'):
+            stats['free_tree_model_none'] += 1
+            continue
+        nn, nnames, nterm = map(int, a.split())
+        stats['free_tree_model_compared'] += 1
+        if o['termcb'] != nterm:
+            chk.violation(sig % 'model-termcb', 'terminal callback called %d times, the model of yaep_free_tree on this DAG says %d' % (o['termcb'], nterm), rep)
+        elif mode == 0:
+            real = [f for f in o['frees'] if f != NULLFREE]
+            if len(real) != nn + nnames or len(set(real)) != len(real):
+                chk.violation(sig % 'model-frees', 'yaep_free_tree passed %d blocks to parse_free (%d distinct); the model says %d nodes + %d names, each once' % (
+                    len(real), len(set(real)), nn, nnames), rep)
     chk.cov['rule'] = ('1-3 parses per grammar object (ambiguous families with sharing, cost pruning, error rules, NIL used/unused), tracking allocator with and without '
                        'parse_free and the default allocator, trees walked (ASan) after yaep_free_grammar and freed in random order, LeakSanitizer at exit')
     return chk.finish(extra_cov={'stream': stats})
